@@ -297,7 +297,7 @@ def r4_3(ctx):
     g = cfgmod.build(render.node)
     drains = [n for n in g.stmt_nodes() if n.kind == "test" and isinstance(n.stmt, ast.While) and norm(n.stmt.test) == "style_stack"]
     # equivalent form: `for index, tag in reversed(style_stack)` / `in style_stack` after the token loop (every entry visited once)
-    drains += [n for n in g.stmt_nodes() if n.kind == "for" and norm(n.stmt.iter) in ("reversed(style_stack)", "style_stack") and n.stmt.lineno > _token_loop_line(render)]
+    drains += [n for n in g.stmt_nodes() if n.kind == "for" and norm(n.stmt.iter) in ("reversed(style_stack)", "style_stack") and _after_token_loop(render, g, n.id)]
     ctx.check(len(drains) == 1, render.fq, "while style_stack:", render.where, "drain loop present", "render() no longer drains the open-tag stack at the end: unclosed tags lose their styling")
     if not drains:
         return
@@ -314,7 +314,7 @@ def r4_3(ctx):
                 rd = g.reaching_defs(weak=False)
                 for nid in g.nodes_of(_stmt_of(m, b)):
                     defs = rd.get(nid, {}).get(e.id, set())
-                    if defs and all(norm(getattr(g.nodes[d].stmt, "value", None) or ast.Constant(value=0)) == "len(text)" and g.nodes[d].lineno > _token_loop_line(render) for d in defs):
+                    if defs and all(norm(getattr(g.nodes[d].stmt, "value", None) or ast.Constant(value=0)) == "len(text)" and _after_token_loop(render, g, d) for d in defs):
                         end_ok = True
     visits_all = isinstance(w, ast.For) or "style_stack.pop()" in body
     ctx.check(visits_all and end_ok, render.fq, short(w), f"{m.relpath}:{w.lineno}", "each leftover tag becomes a span ending at the final text length",
@@ -323,6 +323,25 @@ def r4_3(ctx):
     for n in g.stmt_nodes():
         if n.kind == "stmt" and isinstance(n.stmt, ast.Return) and n.stmt.value is not None and norm(n.stmt.value) == "text":
             ctx.check(g.dominated_by(n.id, {drains[0].id}), render.fq, "return text", f"{m.relpath}:{n.lineno}", "the Text is returned only after the drain loop", "a `return text` bypasses the drain loop")
+
+
+def _after_token_loop(render, g, node_id: int) -> bool:
+    """CFG node `node_id` executes after the token loop: it is not part of the loop and every path to it passes the loop header
+    (positions are not used: inlined helper bodies share the line of their call)"""
+    lp = None
+    for n in walk_local(render.node):
+        if isinstance(n, ast.For) and "_parse(" in norm(n.iter):
+            lp = n
+    if lp is None:
+        return False
+    inside = set()
+    for st in ast.walk(lp):
+        if isinstance(st, ast.stmt) and st is not lp:
+            inside |= set(g.nodes_of(st))
+    headers = set(g.nodes_of(lp)) - inside
+    if node_id in inside or not headers:
+        return False
+    return node_id not in g.reach([g.entry], avoid=headers)
 
 
 def _token_loop_line(render) -> int:
@@ -417,18 +436,53 @@ def r4_4(ctx):
 def r4_5(ctx):
     ctx.rule("R4.5", "tag names are matched modulo whitespace on both sides: the closing branch strips the name itself and then calls Style.normalize, the opening branch relies on Style.normalize alone - so every value Style.normalize returns must be whitespace-insensitive (str(parse(..)) or a .strip()ped form)")
     f = ctx.repo.fn("style:Style.normalize")
+    from ..astutil import inline as _inl45, single_defs as _sdf45
+    sd45 = _sdf45(f.node)
     n = 0
+    values = []
     for r in walk_local(f.node):
         if isinstance(r, ast.Return) and r.value is not None:
-            n += 1
-            txt = norm(r.value)
-            ok = txt.startswith("str(cls.parse(") or ".strip()" in txt
-            ctx.check(ok, f.fq, norm(r), f"{f.module.relpath}:{r.lineno}", "normal form does not depend on surrounding whitespace",
-                      f"Style.normalize returns `{txt}`, which keeps leading/trailing whitespace: an opening tag written `[name ]` is stacked under a different name than the `[/name]` that should close it (MarkupError, and the theme style is not found)")
-    ctx.floor(n, 2, "returns of Style.normalize")
+            if isinstance(r.value, ast.Name) and r.value.id not in sd45:
+                # single exit through a local: every value assigned to it is a returned value
+                vs = [x.value for x in walk_local(f.node) if isinstance(x, ast.Assign) and any(isinstance(t, ast.Name) and t.id == r.value.id for t in x.targets)]
+                values += [(v, r) for v in vs] if vs else [(r.value, r)]
+            else:
+                values.append((r.value, r))
+    for v, r in values:
+        n += 1
+        e = _inl45(v, sd45)
+        txt = norm(e)
+        is_parse = isinstance(e, ast.Call) and norm(e.func) == "str" and len(e.args) == 1 and isinstance(e.args[0], ast.Call) and norm(e.args[0].func) in ("cls.parse", "Style.parse")
+        is_strip = any(isinstance(c, ast.Call) and isinstance(c.func, ast.Attribute) and c.func.attr == "strip" and not c.args for c in ast.walk(e))
+        if not (is_parse or is_strip) and not any(isinstance(nd, ast.Name) and nd.id == f.params[1] for nd in ast.walk(e)):
+            raise AnalysisError(f"Style.normalize: returned value `{txt}` is not derived from the argument in a way this rule reads")
+        ctx.check(is_parse or is_strip, f.fq, short(v), f"{f.module.relpath}:{getattr(v, 'lineno', r.lineno)}", "normal form does not depend on surrounding whitespace",
+                  f"Style.normalize returns `{txt}`, which keeps leading/trailing whitespace: an opening tag written `[name ]` is stacked under a different name than the `[/name]` that should close it (MarkupError, and the theme style is not found)")
+    ctx.floor(n, 2, "returned values of Style.normalize")
+    # what is parsed is the definition itself: case folding belongs to the words parse() recognises, not to the whole string
+    # (a link URL is part of the definition and is case sensitive)
+    par45 = f.params[1]
+    for c in walk_local(f.node):
+        if isinstance(c, ast.Call) and norm(c.func) in ("cls.parse", "Style.parse") and c.args:
+            seen45, work45, folded = set(), [c.args[0]], None
+            while work45:
+                e = work45.pop()
+                for nd in ast.walk(e):
+                    if isinstance(nd, ast.Call) and isinstance(nd.func, ast.Attribute) and nd.func.attr in ("lower", "upper", "casefold", "title", "swapcase", "capitalize"):
+                        folded = nd
+                    if isinstance(nd, ast.Name) and nd.id not in seen45:
+                        seen45.add(nd.id)
+                        for x in walk_local(f.node):
+                            if isinstance(x, ast.Assign) and any(isinstance(t, ast.Name) and t.id == nd.id for t in x.targets) and x.lineno <= c.lineno:
+                                work45.append(x.value)
+            ctx.check(folded is None, f.fq, short(c), f"{f.module.relpath}:{c.lineno}", "the definition is parsed as written",
+                      f"Style.normalize case-folds the whole definition (`{short(folded) if folded is not None else ''}`) before parsing it: parse(normalize(d)) is no longer parse(d) for a definition with a link - `bold link https://Example.org/Path` gets a lower-cased URL")
     m = ctx.repo.mod("markup")
     render = m.fn("render")
-    ctx.check("style_name = tag.name[1:].strip()" in norm(render.node), render.fq, "closing name stripped", render.where, "closing tag name is stripped before normalisation", "the closing tag name is no longer stripped")
+    stripped_close = any(isinstance(c, ast.Call) and isinstance(c.func, ast.Attribute) and c.func.attr == "strip" and isinstance(c.func.value, ast.Subscript) and isinstance(c.func.value.slice, ast.Slice)
+                         and const_int(c.func.value.slice.lower) == 1 and c.func.value.slice.upper is None and isinstance(c.func.value.value, ast.Attribute) and c.func.value.value.attr == "name"
+                         for c in ast.walk(render.node))
+    ctx.check(stripped_close, render.fq, "closing name stripped", render.where, "closing tag name is stripped before normalisation", "the closing tag name is no longer stripped")
 
 
 def r4_6(ctx):
